@@ -23,6 +23,7 @@ type c16Case struct {
 	Extra   int    `json:"extra"`    // unrelated sockets open on the sender
 	Hops    int    `json:"hops"`     // hop budget of the sending socket: 0 default, 1: exactly the distance, 2: distance+1
 	CloseN  int    `json:"close_n"`  // that many of the unrelated sockets are closed at the very instant the notice arrives
+	Slow    bool   `json:"slow"`     // another application on the sender is slow to read its own notices while this case's socket is opened and used
 }
 
 type C16Plan struct {
@@ -71,6 +72,7 @@ func genC16(seed uint64, tier string) any {
 		if r.Bool(0.5) {
 			c.CloseN = r.Range(1, 4)
 		}
+		c.Slow = r.Bool(0.3)
 		switch r.Intn(3) {
 		case 0:
 			c.DeltaUs = r.Range(1, 50)
@@ -178,6 +180,27 @@ func runC16(t *testing.T, planAny any, res *simnet.Result) {
 			switch c.Kind {
 			case "unbound", "closed-before", "closed-after", "local", "fw-drop", "bound":
 				fs := fmt.Sprintf("s%d", ci%1000)
+				if c.Slow && c.Kind != "local" {
+					// an unrelated application that takes its time over each of its own notices
+					if slow, err := src.Net().ListenPacket(fmt.Sprintf("z%d", ci%1000)); err == nil {
+						extras = append(extras, slow)
+						sch := slow.SubscribeUnreachable(done)
+						go func() {
+							for range sch {
+								time.Sleep(300 * time.Millisecond)
+							}
+						}()
+						// (every stage between the node's notice broker and the application holds one notice: it takes six
+						// to make the broker itself wait)
+						for i := 0; i < 7; i++ {
+							_, _ = slow.WriteTo([]byte("x"), src.Net().NewAddr(dst.ID, "nosuchsv"))
+							time.Sleep(time.Millisecond)
+						}
+						// the case's socket is opened while those notices are being handed over
+						time.Sleep(2*oneWay + 5*time.Millisecond)
+						res.Add("fault_slow_notice_consumer", 1)
+					}
+				}
 				spc, err := src.Net().ListenPacket(fs)
 				if err != nil {
 					cleanup()
@@ -245,6 +268,9 @@ func runC16(t *testing.T, planAny any, res *simnet.Result) {
 					}
 				}
 				time.Sleep(2*oneWay + 400*time.Millisecond)
+				if c.Slow {
+					time.Sleep(2500 * time.Millisecond) // (notices queue behind the slow application's)
+				}
 				simnet.Quiesce()
 				delivered := len(got)
 				var notes []netceptor.UnreachableNotification
